@@ -447,7 +447,7 @@ pub fn run(c: &Ctx) {
             for p in &paths {
                 for rec in [false, true] {
                     for follow in [false, true] {
-                        for sel in [ChmodSel::All(0o640), ChmodSel::Dirs(0o701), ChmodSel::Files(0o604), ChmodSel::Sym("d:o+w,f:g-r".into()), ChmodSel::Sym("a:a-x".into())] {
+                        for sel in [ChmodSel::All(0o640), ChmodSel::All(0o777), ChmodSel::Dirs(0o701), ChmodSel::Files(0o604), ChmodSel::Sym("d:o+w,f:g-r".into()), ChmodSel::Sym("a:a-x".into())] {
                             let mut v = t.clone();
                             v.push(Op::ChmodB(p.clone(), ChmodOpt { sel, recursive: rec, follow }));
                             cases.push(v);
